@@ -27,7 +27,7 @@ import sys
 from typing import Any
 
 from .classes import ClassInfo, ClassTable
-from .loader import Module, World, _set_parents
+from .loader import AnalysisError, Incomplete, Module, World, _set_parents
 
 KNOWN_FILE = os.path.join(os.path.dirname(__file__), 'known_names.json')
 MAX_ROUNDS = 6
@@ -1081,11 +1081,17 @@ def normalise(world: World) -> World:
     cached = getattr(world, '_normal_form', None)
     if cached is not None:
         return cached
-    first = Normaliser(world, functions_only=True).run()
-    n = Normaliser(first)
-    out = n.run()
-    if out is not world:
-        out.normalise_log = n.log  # type: ignore[attr-defined]
+    try:
+        first = Normaliser(world, functions_only=True).run()
+        n = Normaliser(first)
+        out = n.run()
+        if out is not world:
+            out.normalise_log = n.log  # type: ignore[attr-defined]
+    except (Incomplete, AnalysisError):
+        raise
+    except Exception as exc:  # noqa: BLE001 - a defect of the normaliser must not take the checks down: analyse the tree as written
+        out = world
+        world.normalise_error = f'{type(exc).__name__}: {exc}'  # type: ignore[attr-defined]
     world._normal_form = out  # type: ignore[attr-defined]
     return out
 
